@@ -55,6 +55,11 @@ def records_for(inst, kernels, seed=0):
            "border_grid": _cells_of_grid(dg.border, h, w, sy, sx, oy, ox)}
     recs.append(rec)
     recs.append({"p": "C10", "api": "edge_buffed", "h": h, "w": w, "u": u, "out": lin(dm.edge_buffed)})
+    # growth beyond the listed property: Mask2D.from_pixel_coordinates (buffer / invert) is the Buffed set of Masks.tla
+    coords = [[int(k) // w, int(k) % w] for k in u]
+    for b_, inv_ in ((0, False), (1, False), (2, True)):
+        mk_ = aa.Mask2D.from_pixel_coordinates(shape_native=(h, w), pixel_coordinates=coords, pixel_scales=1.0, buffer=b_, invert=inv_)
+        recs.append({"p": "C10", "api": "from_pixel_coordinates", "h": h, "w": w, "u": u, "b": b_, "invert": inv_, "out": lin(mk_)})
     for kh, kw in kernels:
         r = {"p": "C10", "api": "blurring", "h": h, "w": w, "u": u, "kh": kh, "kw": kw, "raised": False, "out": [], "grid": []}
         try:
